@@ -125,6 +125,26 @@ def shapes(chk, cases, grid, beh, rng, nk, nb):
             cmp(chk, scared.aes.decrypt(cts, keys, at_round=r, after_step=s), [beh[i]['dec'][p] for i in idx], 'decrypt:blocks paired with keys', dict(ctx, mode='decrypt', blocks=cts.tolist()), 'decrypt pairs')
 
 
+def reused_buffers(chk, cases, beh):
+    """a caller may keep ONE key array and ONE block array and overwrite them in place between calls: every call must use the current contents"""
+    import scared
+    for n in (16, 24, 32):
+        idx = [i for i, c in enumerate(cases) if len(c['key']) == n]
+        kbuf = np.zeros(n, dtype='uint8')
+        bbuf = np.zeros(16, dtype='uint8')
+        for j, ci in enumerate(idx):
+            kbuf[:] = cases[ci]['key']
+            bbuf[:] = cases[ci]['block']
+            nr = n // 4 + 6
+            r, s = (j * 3) % (nr + 1), j % 4
+            chk.count(('reuse', n, ci), nontrivial=j > 0)
+            ctx = {'part': 'reuse', 'key': cases[ci]['key'], 'block': cases[ci]['block'], 'previous_key': cases[idx[j - 1]]['key'] if j else None, 'at_round': r, 'after_step': s}
+            cmp(chk, scared.aes.encrypt(bbuf, kbuf), beh[ci]['enc'][-1], 'encrypt:a key / block array overwritten in place between calls is read afresh by every call', dict(ctx, mode='encrypt'), f'encrypt with reused buffers (AES-{n * 8})')
+            cmp(chk, scared.aes.encrypt(bbuf, kbuf, at_round=r, after_step=s), beh[ci]['enc'][4 * r + s], 'encrypt:a key / block array overwritten in place between calls is read afresh by every call', dict(ctx, mode='encrypt'), 'encrypt stop point with reused buffers')
+            cmp(chk, scared.aes.decrypt(np.array(beh[ci]['enc'][-1], dtype='uint8'), kbuf), cases[ci]['block'], 'decrypt:a key array overwritten in place between calls is read afresh by every call', dict(ctx, mode='decrypt'), 'decrypt with a reused key buffer')
+        chk.traces_validated += 1
+
+
 def single_ops(chk):
     import scared
     r = tlc.run('AESOps', cfg_text=tlc.cfg(invariants=['ArkInvolution', 'Emit']), workers=1, timeout=600)
@@ -204,6 +224,7 @@ def run(chk):
     for ci in range(len(cases)):
         all_stops(chk, cases, beh, ci, DTYPES[ci % len(DTYPES)])
     shapes(chk, cases, grid, beh, rng, nk, nb)
+    reused_buffers(chk, cases, beh)
     single_ops(chk)
     recorded(chk, rng, 12 if q else 120)
     chk.sample({'key': cases[3]['key'], 'block': cases[3]['block'], 'state_after_round1_subbytes': beh[3]['enc'][4], 'ciphertext': beh[3]['enc'][-1]})
